@@ -477,7 +477,7 @@ func (r *rw) special(n ast.Node) (string, bool) {
 	case *ast.SelectorExpr:
 		if id, ok := x.X.(*ast.Ident); ok && id.Name == "sync" {
 			switch x.Sel.Name {
-			case "Mutex", "RWMutex", "WaitGroup", "Once":
+			case "Mutex", "RWMutex", "WaitGroup", "Once", "Pool":
 			default:
 				r.refuse = append(r.refuse, fmt.Sprintf("%s: sync.%s at %v is not modelled", r.name, x.Sel.Name, r.fset.Position(x.Pos())))
 			}
